@@ -1,0 +1,121 @@
+//! Verification hooks, compiled only with the `verif` feature.
+//!
+//! Two things live here, neither of which changes what the engine computes:
+//!
+//! * reach counters: `hit(ARM)` is called at solver / optimiser / parser arms of interest so that
+//!   an external monitor can report which arms a workload actually reached;
+//! * `solve3`: the three-valued result of the top-level condition (the public API folds
+//!   `false` and `missing` into `false`).
+
+use std::cell::RefCell;
+
+use crate::document::Document;
+use crate::rule::Detection;
+use crate::solver::{self, SolverResult};
+
+macro_rules! arms {
+    ($($name:ident),* $(,)?) => {
+        #[allow(non_camel_case_types, clippy::upper_case_acronyms)]
+        #[derive(Clone, Copy)]
+        #[repr(usize)]
+        pub enum Arm { $($name),* }
+        pub const NAMES: &[&str] = &[$(stringify!($name)),*];
+    };
+}
+
+arms!(
+    // solver
+    SOLVE_GROUP_AND,
+    SOLVE_GROUP_OR,
+    SOLVE_CMP_STR_STR,
+    SOLVE_CMP_BOOL,
+    SOLVE_CMP_NULL,
+    SOLVE_CMP_NUM,
+    SOLVE_BIN_AND,
+    SOLVE_BIN_OR,
+    SOLVE_ALL_GROUP,
+    SOLVE_OF_GROUP,
+    SOLVE_MATRIX,
+    SOLVE_NEGATE,
+    SOLVE_NESTED_ARRAY_ALL_OR,
+    SOLVE_NESTED_ARRAY_ALL_MATRIX,
+    SOLVE_NESTED_ARRAY,
+    SOLVE_NESTED_OTHER,
+    SOLVE_SEARCH_ARRAY,
+    SOLVE_SEARCH_CAST,
+    SOLVE_SEARCH_OTHER,
+    ALL_AHO,
+    ALL_REGEX_SET,
+    ALL_MATRIX,
+    ALL_FALLBACK,
+    OF_ZERO,
+    OF_AHO,
+    OF_REGEX_SET,
+    OF_MATRIX,
+    OF_FALLBACK,
+    SEARCH_AHO,
+    SEARCH_AHO_ENDS_WITH,
+    SEARCH_AHO_EXACT,
+    SEARCH_AHO_STARTS_WITH,
+    SEARCH_REGEX_SET,
+    SLOW_AHO,
+    MATRIX_CACHE_FILL,
+    CACHE_FIND,
+    PASSTHROUGH_FIND,
+    // optimiser
+    OPT_SHAKE_FLATTEN,
+    OPT_SHAKE_AND_NESTED_MERGED,
+    OPT_SHAKE_OR_NESTED_MERGED,
+    OPT_SHAKE_OR_NEEDLES_MERGED,
+    OPT_SHAKE_OR_PATTERNS_MERGED,
+    OPT_REWRITE_REGEX,
+    OPT_REWRITE_REGEX_SET,
+    OPT_MATRIX_BUILT,
+    OPT_MERGE_MAP_MULTI_KEY,
+    // parser
+    PARSE_BATCH_AHO,
+    PARSE_BATCH_IAHO,
+    PARSE_BATCH_REGEX_SET,
+    PARSE_BATCH_IREGEX_SET,
+    PARSE_MATCH_SINGLE,
+    PARSE_MATCH_GROUP,
+);
+
+thread_local! {
+    static HITS: RefCell<Vec<u64>> = RefCell::new(vec![0; NAMES.len()]);
+}
+
+/// Record that `arm` was reached on this thread.
+#[inline]
+pub fn hit(arm: Arm) {
+    HITS.with(|h| h.borrow_mut()[arm as usize] += 1);
+}
+
+/// Record that `arm` was reached on this thread if `cond` holds.
+#[inline]
+pub fn hit_if(cond: bool, arm: Arm) {
+    if cond {
+        hit(arm);
+    }
+}
+
+/// Return and reset this thread's counters.
+pub fn take() -> Vec<(&'static str, u64)> {
+    HITS.with(|h| {
+        let mut h = h.borrow_mut();
+        let out = NAMES.iter().cloned().zip(h.iter().cloned()).collect();
+        for c in h.iter_mut() {
+            *c = 0;
+        }
+        out
+    })
+}
+
+/// The three-valued result of the detection's condition: 0 = false, 1 = true, 2 = missing.
+pub fn solve3(detection: &Detection, document: &dyn Document) -> u8 {
+    match solver::solve_expression(&detection.expression, &detection.identifiers, document) {
+        SolverResult::False => 0,
+        SolverResult::True => 1,
+        SolverResult::Missing => 2,
+    }
+}
